@@ -290,7 +290,13 @@ ResOutcomes(p) ==
          {O(avail, <<Set("out_buf", p.out_buf \/ avail > 0), Ret("DATA_BUFFER")>>)}
          \cup {O(u, <<Set("out_buf", FALSE), SetOut("RES_BODY_CHUNKED_DATA"), Ret("OK")>>) : u \in U(1, avail)}
          \cup {O(u, <<Set("out_buf", FALSE), SetOut("RES_HEADERS"), SetSp(i, TRAILER), Ret("OK")>>) : u \in U(1, avail)}
-         \cup {O(u, <<SetOut("RES_BODY_IDENTITY_STREAM_CLOSE"), SetTx(i, "sc", "ident"), Ret("OK")>>) : u \in U(NEG, avail)}
+         \* an empty line in front of the chunk length is skipped and releases the line buffer: nothing may be left buffered
+         \cup (IF avail > 0 THEN {O(avail, <<Set("out_buf", FALSE), Ret("DATA_BUFFER")>>)} ELSE {})
+         \* not a chunk length: identity up to the close.  With nothing buffered the line is unread and the identity state takes it;
+         \* a line assembled in the buffer (also an empty buffer object left by a DATA_BUFFER return without bytes, which the
+         \* boolean does not show) is handed over as body data here and the buffer released (repair D36)
+         \cup (IF p.out_buf THEN {} ELSE {O(u, <<SetOut("RES_BODY_IDENTITY_STREAM_CLOSE"), SetTx(i, "sc", "ident"), Ret("OK")>>) : u \in U(NEG, avail)})
+         \cup {O(u, <<Set("out_buf", FALSE), SetOut("RES_BODY_IDENTITY_STREAM_CLOSE"), SetTx(i, "sc", "ident")>> \o ResBody(p, i) \o <<Ret("OK")>>) : u \in U(1, avail)}
     [] p.out_state = "RES_BODY_CHUNKED_DATA" ->
          IF avail = 0 THEN {O(0, <<Ret("DATA")>>)}
          ELSE {O(0, ResBody(p, i) \o <<Use(avail), Ret("DATA")>>)}
